@@ -190,6 +190,37 @@ fn gen_pm(ctx: &mut Ctx, opts: &GenOpts) -> Option<Pm> {
   make_pm(ctx, cfg, meta)
 }
 
+/// counter-propagating phase-matched setups: poled (auto period — sub-micron), both orientations (signal forward with
+/// the idler leaving through the entrance face, and the exchanged one), collinear or slightly tilted, any crystal/type,
+/// waists and lengths over the statement's ranges
+fn gen_cp(ctx: &mut Ctx, opts: &GenOpts) -> Option<Pm> {
+  let (mut cfg, mut meta) = gen_config(&mut ctx.rng, opts);
+  cfg["crystal"]["counter_propagation"] = serde_json::json!(true);
+  if cfg["crystal"]["theta_deg"].is_string() {
+    cfg["crystal"]["theta_deg"] = serde_json::json!(if ctx.rng.coin() { 90.0 } else { 0.0 });
+  }
+  cfg["periodic_poling"] = serde_json::json!({"poling_period_um": "auto", "apodization": {"kind": "Off"}});
+  cfg["idler"] = serde_json::json!("auto");
+  let backward = ctx.rng.coin();
+  let collinear = ctx.rng.below(10) < 7;
+  let tilt = if collinear { 0.0 } else { (ctx.rng.range(0.05, 3.0) * 100.0).round() / 100.0 };
+  let sig = cfg["signal"].as_object_mut().unwrap();
+  sig.remove("theta_external_deg");
+  sig.insert("theta_deg".into(), serde_json::json!(if backward { 180.0 - tilt } else { tilt }));
+  sig.insert("waist_position_um".into(), serde_json::json!("auto"));
+  let thr = *ctx.rng.pick(&[1e-2, 1e-2, 1e-4, 0.1, 0.25]);
+  cfg["pump"]["spectrum_threshold"] = serde_json::json!(thr);
+  meta.cp = true;
+  meta.poling = true;
+  meta.collinear = collinear;
+  meta.idler_explicit = false;
+  meta.idler_conj = true;
+  meta.wi_um = meta.ws_um;
+  meta.apod = "Off".into();
+  ctx.count(if backward { "counter-propagating/signal-backward" } else { "counter-propagating/signal-forward" });
+  make_pm(ctx, cfg, meta)
+}
+
 /// sources with a heralding efficiency close to one: short poled crystal, wide pump, small collection waists
 fn gen_high_eff(ctx: &mut Ctx) -> Option<Pm> {
   let l = (ctx.rng.log_range(300.0, 2000.0)).round();
@@ -370,14 +401,16 @@ fn pointwise(ctx: &mut Ctx, p: &Pm, integ: Integrator, nu: usize, nv: usize) {
     exceeding.len(),
     unconverged
   );
+  // failures of counter-propagating setups carry their own signatures (never matched by the D9 region)
+  let cp = if p.meta.cp { "/counter-propagating" } else { "" };
   if nonfinite {
-    ctx.s("C08.pointwise", false, "pointwise/non-finite", &d);
+    ctx.s("C08.pointwise", false, &format!("pointwise/non-finite{}", cp), &d);
   } else if negative {
-    ctx.s("C08.pointwise", false, "pointwise/negative", &d);
+    ctx.s("C08.pointwise", false, &format!("pointwise/negative{}", cp), &d);
   } else if let Some((r, _, _)) = violation {
     // coincidences where a singles intensity is exactly zero is a different failure from the D9 excess
     let sig = if r.is_infinite() { "pointwise/coincidences-where-singles-vanish" } else { "pointwise/jsi-exceeds-singles" };
-    ctx.s("C08.pointwise", false, sig, &d);
+    ctx.s("C08.pointwise", false, &format!("{}{}", sig, cp), &d);
   } else {
     ctx.s("C08.pointwise", true, "pointwise/ok", &d);
   }
@@ -428,14 +461,15 @@ fn rates(ctx: &mut Ctx, p: &Pm, integ: Integrator, n: usize, wing: bool) {
     e.idler
   );
   let fin = c.is_finite() && rs.is_finite() && ri.is_finite();
+  let cp = if p.meta.cp { "/counter-propagating" } else { "" };
   if !fin {
-    ctx.s("C08.rates", false, "rates/non-finite", &d);
+    ctx.s("C08.rates", false, &format!("rates/non-finite{}", cp), &d);
   } else if c < 0.0 || rs < 0.0 || ri < 0.0 {
-    ctx.s("C08.rates", false, "rates/negative", &d);
+    ctx.s("C08.rates", false, &format!("rates/negative{}", cp), &d);
   } else {
     let in01 = |x: f64| (0.0..=1.0 + 1e-9).contains(&x);
     let ok = in01(e.symmetric) && in01(e.signal) && in01(e.idler);
-    ctx.s("C08.rates", ok, if ok { "rates/ok" } else { "rates/efficiency-outside-unit-interval" }, &d);
+    ctx.s("C08.rates", ok, &if ok { "rates/ok".to_string() } else { format!("rates/efficiency-outside-unit-interval{}", cp) }, &d);
   }
 
   // K: the three rates from the arrays the real range functions return, and the correction factor
@@ -573,6 +607,101 @@ fn history_rates(ctx: &mut Ctx, p: &Pm) {
     if ok { "history/ok" } else { "history/rates-depend-on-history" },
     &format!("{} changed={} integ_b={} why={}", p.tokens(), which, integ_name(&ib), if ok { "-".to_string() } else { why }),
   );
+}
+
+
+// ------------------------------------------------------------------------------------------------
+// S: every API route gives the same rates; exact boundary values
+// ------------------------------------------------------------------------------------------------
+
+/// methods, free functions, the wavelength-space route and the point-wise accessors agree with `SPDC::efficiencies`
+/// and the `*_range` arrays (sequential Gauss–Legendre rule: 1e-12 for the parallel grid sums, bit-equal per point)
+fn routes(ctx: &mut Ctx, p: &Pm) {
+  let integ = Integrator::GaussLegendre { degree: 40 };
+  let (w0s, w0i) = (p.s.signal.frequency(), p.s.idler.frequency());
+  let a = (1.1 * p.d_pm).min(1.5 * p.sigma) * RAD / S;
+  let range = FrequencySpace::new((w0s - a, w0s + a, 3), (w0i - a, w0i + a, 4));
+  let r = guard(|| {
+    let e = p.s.efficiencies(range, integ);
+    let m = (p.s.counts_coincidences(range, integ), p.s.counts_singles_signal(range, integ), p.s.counts_singles_idler(range, integ));
+    let f = (
+      spdcalc::counts_coincidences(&p.s, range, integ),
+      spdcalc::counts_singles_signal(&p.s, range, integ),
+      spdcalc::counts_singles_idler(&p.s, range, integ),
+    );
+    let ef = spdcalc::efficiencies(&p.s, range, integ);
+    let wl = range.as_wavelength_space();
+    let e_wl = p.s.efficiencies(wl, integ);
+    let e_wl_f = p.s.efficiencies(FrequencySpace::from(wl), integ);
+    let js = p.s.joint_spectrum(integ);
+    let arr = (js.jsi_range(range), js.jsi_singles_range(range));
+    let pts: Vec<(Frequency, Frequency)> = range.as_steps().into_iter().collect();
+    let point_ok = pts.iter().enumerate().all(|(k, (ws, wi))| ju(js.jsi(*ws, *wi)).to_bits() == ju(arr.0[k]).to_bits() && ju(js.jsi_singles(*ws, *wi)).to_bits() == ju(arr.1[k]).to_bits());
+    (e, m, f, ef, e_wl, e_wl_f, point_ok)
+  });
+  let (e, m, f, ef, e_wl, e_wl_f, point_ok) = match r {
+    Some(x) => x,
+    None => {
+      ctx.count("skip/joint-spectrum-panic");
+      return;
+    }
+  };
+  let rel = |x: f64, y: f64| x == y || (x.is_nan() && y.is_nan()) || (x - y).abs() <= 1e-12 * x.abs().max(y.abs());
+  let hz = |x: spdcalc::dim::ucum::Hertz<f64>| *(x / HZ);
+  let mut bad: Vec<&str> = Vec::new();
+  if !(rel(hz(m.0), hz(e.coincidences)) && rel(hz(m.1), hz(e.signal_singles)) && rel(hz(m.2), hz(e.idler_singles))) {
+    bad.push("counts-methods");
+  }
+  if !(rel(hz(f.0), hz(e.coincidences)) && rel(hz(f.1), hz(e.signal_singles)) && rel(hz(f.2), hz(e.idler_singles))) {
+    bad.push("counts-free-functions");
+  }
+  if !(rel(ef.symmetric, e.symmetric) && rel(ef.signal, e.signal) && rel(ef.idler, e.idler) && rel(hz(ef.coincidences), hz(e.coincidences))) {
+    bad.push("efficiencies-free-function");
+  }
+  if !(rel(hz(e_wl.coincidences), hz(e_wl_f.coincidences)) && rel(hz(e_wl.signal_singles), hz(e_wl_f.signal_singles)) && rel(hz(e_wl.idler_singles), hz(e_wl_f.idler_singles)) && rel(e_wl.symmetric, e_wl_f.symmetric)) {
+    bad.push("wavelength-space");
+  }
+  if !point_ok {
+    bad.push("point-vs-range");
+  }
+  let ok = bad.is_empty();
+  ctx.s("C08.routes", ok, if ok { "routes/ok" } else { "routes/differ" }, &format!("{} which={}", p.tokens(), if ok { "-".to_string() } else { bad.join("+") }));
+}
+
+/// a pair whose pump amplitude is *exactly* the threshold is inside the support for coincidences and singles alike
+/// (C ≤ S there, and S > 0 if C > 0); one ulp above the threshold both vanish
+fn boundary(ctx: &mut Ctx, p: &Pm) {
+  let integ = Integrator::GaussLegendre { degree: 40 };
+  let (w0s, w0i) = (p.s.signal.frequency(), p.s.idler.frequency());
+  let u = ctx.rng.range(0.2, 0.9) * p.sigma;
+  let (ws, wi) = (w0s + u * RAD / S, w0i + u * RAD / S);
+  let alpha = spdcalc::pump_spectral_amplitude(ws + wi, &p.s);
+  if !(alpha > 0.0 && alpha < 1.0) {
+    return;
+  }
+  let eval = |thr: f64| {
+    let mut s = p.s.clone();
+    s.pump_spectrum_threshold = thr;
+    guard(move || {
+      let js = s.joint_spectrum(integ);
+      (ju(js.jsi(ws, wi)), ju(js.jsi_singles(ws, wi)), ju(js.jsi_singles_idler_range(SignalIdlerFrequencyArray(vec![ws, wi]))[0]))
+    })
+  };
+  let above = f64::from_bits(alpha.to_bits() + 1);
+  if let (Some(at), Some(ab)) = (eval(alpha), eval(above)) {
+    let cp = if p.meta.cp { "/counter-propagating" } else { "" };
+    let in_d9 = p.xi_s.max(p.xi_i) >= 0.6;
+    let ok_at = at.0 >= 0.0 && ((at.0 == 0.0) || (at.1 > 0.0 && at.2 > 0.0)) && (in_d9 || at.0 <= at.1.min(at.2) * (1.0 + 1e-9));
+    let ok_above = ab.0 == 0.0 && ab.1 == 0.0 && ab.2 == 0.0;
+    let ok = ok_at && ok_above;
+    let sig = if ok { "boundary/ok".to_string() } else if !ok_above { format!("boundary/nonzero-beyond-threshold{}", cp) } else { format!("boundary/threshold-pair{}", cp) };
+    ctx.s(
+      "C08.boundary",
+      ok,
+      &sig,
+      &format!("{} alpha={:e} at=({:e},{:e},{:e}) above=({:e},{:e},{:e})", p.tokens(), alpha, at.0, at.1, at.2, ab.0, ab.1, ab.2),
+    );
+  }
 }
 
 // ------------------------------------------------------------------------------------------------
@@ -910,12 +1039,14 @@ pub fn run(ctx: &mut Ctx) {
   // ---- default mode: phase-matched setups over the statement's domain
   // (mode "focus": the strongly focused corner of that domain only, to map the boundary of the D9 region)
   let focus = mode == "focus";
+  // (mode "cp": counter-propagating setups only)
+  let cp_only = mode == "cp";
   let opts = GenOpts {
     waist: if focus { (20.0, 110.0) } else { (20.0, 300.0) },
     length: if focus { (2000.0, 20000.0) } else { (500.0, 20000.0) },
     explicit_idler: false,
     counter_prop: false,
-    apodization: false,
+    apodization: true,
     poling: None,
     collinear: None,
   };
@@ -943,9 +1074,11 @@ pub fn run(ctx: &mut Ctx) {
     let p = if let Some((cfg, meta, he)) = fixed.pop() {
       high_eff = he;
       make_pm(ctx, cfg, meta)
-    } else if !focus && tries % 5 == 0 {
+    } else if !focus && !cp_only && tries % 5 == 0 {
       high_eff = true;
       gen_high_eff(ctx)
+    } else if cp_only || (!focus && tries % 5 == 2) {
+      gen_cp(ctx, &opts)
     } else {
       gen_pm(ctx, &opts)
     };
@@ -958,6 +1091,7 @@ pub fn run(ctx: &mut Ctx) {
     ctx.count(&format!("pm/{}", p.meta.pm));
     ctx.count(&format!("poling/{}", if p.meta.poling { "on" } else { "off" }));
     ctx.count(&format!("signal/{}", if p.meta.collinear { "collinear" } else { "non-collinear" }));
+    ctx.count(&format!("counter-propagation/{}", p.meta.cp as u8));
     let xm = p.xi_s.max(p.xi_i);
     ctx.count(&format!("xi_si/{}", if xm < 0.1 { "lt0.1" } else if xm < 0.5 { "0.1-0.5" } else if xm < 1.0 { "0.5-1" } else if xm < 3.0 { "1-3" } else { "gt3" }));
     pointwise(ctx, &p, Integrator::GaussLegendre { degree: 40 }, nu, nv);
@@ -974,6 +1108,12 @@ pub fn run(ctx: &mut Ctx) {
     singles_k(ctx, &p.s, p.s.signal.frequency(), p.s.idler.frequency());
     if done % 3 == 0 {
       history_rates(ctx, &p);
+    }
+    if done % 3 == 1 {
+      routes(ctx, &p);
+      boundary(ctx, &p);
+      // the smallest grid with a cell area (a side of one point has no division width: not a grid in the statement's sense)
+      rates(ctx, &p, Integrator::GaussLegendre { degree: 40 }, 2, false);
     }
   }
   let _ = vacuum_wavelength_to_frequency(1e-6 * M);
